@@ -43,7 +43,18 @@ _trace = None
 
 def cases(tier, seed):
     n2, n3 = (14, 2) if tier == "quick" else (260, 40)
-    return [{"D": 2} for _ in range(n2)] + [{"D": 3} for _ in range(n3)]
+    out = [{"D": 2} for _ in range(n2)] + [{"D": 3} for _ in range(n3)]
+    # fixed corner architectures (both tiers): scalar/pseudo-scalar-only U-Nets (pooling of k=0 types), pseudo-vectors
+    # through normalisation, two pooling levels on a non-square torus
+    out += [{"D": f["D"], "cfg": f} for f in FIXED]
+    return out
+
+
+FIXED = [
+    {"cls": "UNet", "D": 2, "equivariant": True, "in_sig": [[[0, 1], 2]], "out_sig": [[[0, 1], 1]], "depth": 2, "num_blocks": 1, "num_conv": 1, "num_downsamples": 1, "activation": "relu", "norm": False, "preact": False, "bias": "auto", "bank_ks": [0, 1, 2], "torus": [True, True], "N": [4, 4]},
+    {"cls": "UNet", "D": 2, "equivariant": True, "in_sig": [[[0, 0], 1], [[0, 1], 1]], "out_sig": [[[0, 1], 1], [[0, 0], 2]], "depth": 1, "num_blocks": 1, "num_conv": 1, "num_downsamples": 2, "activation": "gelu", "norm": True, "preact": False, "bias": "mean", "bank_ks": [0, 1, 2], "torus": [True, True], "N": [8, 4]},
+    {"cls": "ResNet", "D": 2, "equivariant": True, "in_sig": [[[1, 1], 2], [[0, 0], 1]], "out_sig": [[[1, 1], 1]], "depth": 2, "num_blocks": 1, "num_conv": 2, "num_downsamples": 1, "activation": "tanh", "norm": True, "preact": True, "bias": "auto", "bank_ks": [0, 1, 2], "torus": [False, True], "N": [5, 4]},
+]
 
 
 def setup(ctx):
@@ -169,6 +180,8 @@ def run(case, ctx):
     rng = rng_for(ctx["seed"], ID, case["i"])
     D = case["D"]
     cfg = mlgen.gen_model_cfg(rng, D)
+    if case.get("cfg"):
+        cfg = dict(case["cfg"])
     key = {k: cfg[k] for k in ("cls", "D", "in_sig", "out_sig", "depth", "num_blocks", "num_conv", "num_downsamples", "activation", "norm", "preact", "bias", "torus", "N")}
     sink = io.StringIO()
     evals = 0
